@@ -101,8 +101,30 @@ ContinuesOnZero(loop, p, fixedCode) ==
 LoopCases == { <<l, p, a>> : l \in LoopNames, p \in Params, a \in 0..4 }
 
 ---------------------------------------------------------------------------
+(* (4) count-prefixed lists: the peer states how many entries follow; the   *)
+(* parser loops `count` times taking one entry per iteration (agent          *)
+(* identities, keyboard-interactive prompts and responses, EXT_INFO          *)
+(* extensions, SFTP names and extended attributes).  An iteration that finds *)
+(* no entry raises a decode error which ENDS the loop (as coded);            *)
+(* CountSwallow is the wrong variant in which the error is swallowed per     *)
+(* iteration, so the work is the peer's number, not the input's size.        *)
+CountSites == {"agent_identities", "kbdint_prompts", "kbdint_responses", "ext_info_client",
+               "ext_info_server", "sftp_names", "sftp_attr_ext", "sftp_srv_attr_ext"}
+CountClasses == {"exact", "plus1", "k64", "max31", "max32"}
+Present == 0..2
+CountVal(cls, n) == CASE cls = "exact" -> n [] cls = "plus1" -> n + 1 [] cls = "k64" -> 65536
+                      [] cls = "max31" -> 2147483647 [] OTHER -> 2147483647   \* 2^32-1 in the driver
+CountCases == { <<st, cls, n>> : st \in CountSites, cls \in CountClasses, n \in Present }
+\* iterations executed: one per entry present, plus the one that fails - unless errors are swallowed
+Iterations(cls, n, swallow) == IF cls = "exact" THEN n
+                               ELSE IF swallow THEN CountVal(cls, n) ELSE n + 1
+CountOutcome(cls) == IF cls = "exact" THEN "ok" ELSE "error"
+
+---------------------------------------------------------------------------
 VARIABLES case
-Init == \/ Part = "msg" /\ case \in {c \in MsgCases : LegalMsgCase(c)}
+Init == \/ Part = "counts" /\ case \in CountCases
+        \/ Part = "counts_swallow" /\ case \in CountCases
+        \/ Part = "msg" /\ case \in {c \in MsgCases : LegalMsgCase(c)}
         \/ Part = "der" /\ case \in DerCases
         \/ Part = "loops" /\ case \in LoopCases
         \/ Part = "loops_unfixed" /\ case \in LoopCases
@@ -114,6 +136,11 @@ LoopProgress ==
     Part \in {"loops", "loops_unfixed"} =>
         LET l == case[1] p == case[2] a == case[3] fx == (Part = "loops") IN
         (a > 0 /\ Consumes(l, p, a, fx) = 0) => ~ContinuesOnZero(l, p, fx)
+
+\* the work done on a count-prefixed list is bounded by the entries actually received
+CountBounded ==
+    Part \in {"counts", "counts_swallow"} =>
+        Iterations(case[2], case[3], Part = "counts_swallow") <= case[3] + 1
 
 Emit == PrintT(ToString(<<"SCRIPT", case, Part>>))
 =============================================================================
